@@ -217,9 +217,9 @@ CHAN_ASSUME = [
 ]
 
 
-# thorough volumes are the listed numbers times VERIF_THOROUGH_SCALE (default 0.3: the full numbers take hours
+# thorough volumes are the listed numbers times VERIF_THOROUGH_SCALE (default 0.1: the full numbers take many hours
 # of TLC time per channel check); tuples (scenario seeds, capacities) are never scaled
-THOROUGH_SCALE = float(os.environ.get("VERIF_THOROUGH_SCALE", "0.3"))
+THOROUGH_SCALE = float(os.environ.get("VERIF_THOROUGH_SCALE", "0.1"))
 
 
 def n(tier, q, t):
